@@ -38,7 +38,7 @@ def run(j):
         shutil.rmtree(d,ignore_errors=True)
 if __name__=='__main__':
     out=sys.argv[1] if len(sys.argv)>1 else '/root/work/matrix.json'
-    with Pool(8) as p: res=p.map(run,jobs(),chunksize=4)
+    with Pool(6) as p: res=p.map(run,jobs(),chunksize=4)
     json.dump([{'patch':n,'property':pr,'keys':k} for n,pr,k in res],open(out,'w'),indent=1)
     miss=[n for n,pr,k in res if k==[]]
     print(len(res),'patches;',len([1 for n,pr,k in res if k is None]),'do not apply;',len(miss),'not detected:',miss[:20])
